@@ -4,6 +4,7 @@ import (
 	"encoding/hex"
 	"encoding/json"
 	"fmt"
+	"sort"
 	"strconv"
 	"strings"
 	"time"
@@ -59,7 +60,13 @@ func (gn *GlobalNode) Decode(input []byte) error {
 }
 
 func (gn *GlobalNode) updateConfig(fields map[string]string) error {
-	for key, value := range fields {
+	sortedKeys := make([]string, 0, len(fields))
+	for k := range fields {
+		sortedKeys = append(sortedKeys, k)
+	}
+	sort.Strings(sortedKeys)
+	for _, key := range sortedKeys {
+		value := fields[key]
 		switch key {
 		case Settings[PourAmount]:
 			fAmount, err := strconv.ParseFloat(value, 64)
